@@ -11,6 +11,7 @@ Tie
                                against Escape.exception_doc of the generated template.
   * correspondence `tokens`:   the Python tokenizer used by the oracle against Escape.tokenize.
   * correspondence `welcome`:  MapProxyApp.welcome_response against the generated Gen_exc_templates.welcome_response.
+  * correspondence `host`:     Request.host / url_scheme / host_url against Escape.host / url_scheme / host_url.
   * correspondence `capabilities`: capabilities documents of the whole application for hostile Host / X-Forwarded-* values
                                against `fill segs (escape_html host_url)` with the segments of the benign document.
   * correspondence `appdoc`:   XML exception documents produced by the WHOLE application on a malformed-request
@@ -501,6 +502,11 @@ HOSTILE = ['<c18m>', '\xe4', 'l\xe4yer', '\xff', '\xc3(', '"><c18m x="', "'><c18
            'A' * 300, 'true', 'TRUE', 'inimage', 'blank', 'xml', 'application/vnd.ogc.se_inimage', 'application/vnd.ogc.se_blank',
            '0x', '0xzzzzzz', '#ffffff', '2009-13-45', 'default', 'cached,cached', 'cached,<c18m>', 'direct']
 
+# syntactic forms of a Host header (RFC 3986 authority): IPv6 literals, ports, empty parts
+HOST_FORMS = ['[::1]', '[::1]:8080', '[2001:db8::1]:80', '[2001:db8:0:0:0:0:0:1]:443', '::1', 'a:b:c', ':', '::', 'localhost:', ':80',
+              'localhost:80', 'localhost:443', 'localhost:8080', 'example.org:80:80', '[fe80::1%25eth0]:80', 'h,i:80', ' spaced.example ']
+# parameter tails for values that name a media type / format (RFC 7231 parameters, case, line ends)
+FORMAT_TAILS = [';x=1', '; charset=utf-8', ';\r\nX-Injected: 1', '; charset=utf-8\r\nSet-Cookie: c18=1', '\r\n', '\n', ';\x00', ' ', ';', ';;=']
 MARK = re.compile(r'c18m', re.I)
 
 
@@ -749,7 +755,7 @@ def mutate(rng, name, path, pairs):
             h = rng.choice(['HTTP_X_FORWARDED_HOST', 'HTTP_X_FORWARDED_PROTO', 'HTTP_X_SCRIPT_NAME', 'HTTP_HOST', 'HTTP_IF_NONE_MATCH',
                             'HTTP_IF_MODIFIED_SINCE', 'HTTP_ACCEPT', 'HTTP_REFERER', 'HTTP_ORIGIN'])
             v = rng.choice(HOSTILE + ['evil.example"><c18m x="', "evil.example'><c18m>", 'a, b', 'javascript:alert(1)//', 'https', 'ftp',
-                                      '/prefix', '/pre"fix<c18m>', 'Thu, 01 Jan 1970 00:00:00 GMT', 'yesterday', '*', 'W/"x"'])
+                                      '/prefix', '/pre"fix<c18m>', 'Thu, 01 Jan 1970 00:00:00 GMT', 'yesterday', '*', 'W/"x"'] + HOST_FORMS)
             v = ''.join(c for c in v if ord(c) >= 32 and ord(c) != 127)     # a WSGI server never delivers control characters in a header value
             headers[h] = v.encode('utf-8').decode('latin-1')      # PEP 3333: header values are latin-1 decoded bytes
             what.append('header %s' % h)
@@ -1009,7 +1015,7 @@ CAP_DOCS = [('wms111.cap', '/service', 'service=WMS&request=GetCapabilities&vers
             ('wmts.kvp.cap', '/service', 'service=WMTS&request=GetCapabilities&version=1.0.0'),
             ('wmts.rest.cap', '/wmts/1.0.0/WMTSCapabilities.xml', ''),
             ('tms.root', '/tms', ''), ('tms.cap', '/tms/1.0.0/', ''), ('tms.layercap', '/tms/1.0.0/cached/EPSG900913', '')]
-CAP_HOSTS = [{'HTTP_HOST': 'evil"><c18m x="'}, {'HTTP_X_FORWARDED_HOST': "a&b'><c18m>"}, {'HTTP_X_FORWARDED_PROTO': '"><c18m x="'},
+CAP_HOSTS = [{'HTTP_HOST': '[2001:db8::1]:8080'}, {'HTTP_HOST': '[::1]'}, {'HTTP_HOST': 'a:b:c'}, {'HTTP_HOST': 'evil"><c18m x="'}, {'HTTP_X_FORWARDED_HOST': "a&b'><c18m>"}, {'HTTP_X_FORWARDED_PROTO': '"><c18m x="'},
              {'HTTP_HOST': 'h<c18m>:8080'}, {'HTTP_X_FORWARDED_HOST': 'proxy.example, other', 'HTTP_X_FORWARDED_PROTO': 'https'},
              {'HTTP_HOST': 'localhost:80'}, {'HTTP_HOST': 'h\xe4st.example'}, {'HTTP_X_FORWARDED_PROTO': "java'script"},
              {'HTTP_HOST': '&amp;&lt;'}, {'HTTP_X_FORWARDED_HOST': '</Service><c18m/>'}]
@@ -1058,6 +1064,10 @@ def part_capabilities(ctx, app):
             if 'chunks' not in res:
                 ctx.fail('service=%s,wsgi-raised' % name.split('.')[0], 'the WSGI application raised %s' % res.get('raised'), rep)
                 continue
+            badh = [(hk, hv) for hk, hv in (res.get('headers') or []) if re.search(r'[\x00-\x08\x0a-\x1f\x7f]', str(hk) + str(hv))]
+            if badh:
+                ctx.fail('service=%s,bad-header-value' % name.split('.')[0], 'header %r cannot be sent (control characters)' % (badh[0],), rep)
+                continue
             try:
                 doc = b''.join(res['chunks']).decode('utf-8')
             except UnicodeDecodeError:
@@ -1083,6 +1093,67 @@ def part_capabilities(ctx, app):
     ctx.corr_check('capabilities', 'Escape', 'list seg * list Z * list Z', terms,
                    "fun c => let '(segs, raw, doc) := c in str_eqb (fill segs (escape_html raw)) doc",
                    lambda i: descr[i], shard=3, defs='\n'.join(defs))
+
+
+def part_host(ctx):
+    """Request.host / url_scheme / host_url against Escape.host / url_scheme / host_url on generated environs"""
+    try:
+        from mapproxy.request.base import Request
+    except Exception as e:  # noqa
+        ctx.problem('harness', 'cannot import mapproxy.request.base: %r' % (e,))
+        return
+    rng = ctx.rng
+    spaces = ['', ' ', '\t', '\x0b', '\x1c', '\x85', '\xa0', '\u2003', '\u3000', '\u200b', '\ufeff']
+
+    def hostval():
+        r = rng.random()
+        if r < 0.45:
+            v = rng.choice(HOST_FORMS + ['example.org', 'example.org:8080', 'a,b', 'a:80,b:443', ',', ',x', '', ':443', 'h:443', 'h:80', 'h:080',
+                                         'h:80 ', 'h: 80', 'H:80:x', '[::]:443', 'x:443:80'])
+        elif r < 0.7:
+            v = ''.join(rng.choice(['a', 'b', ':', ':', ',', '80', '443', '[', ']', '.', ' ', '\xa0', 'é', '<', '"']) for _ in range(rng.randrange(0, 7)))
+        else:
+            v = gen_string(rng, surrogates=False, maxlen=8)
+        return rng.choice(spaces) + v + rng.choice(spaces) if rng.random() < 0.3 else v
+    terms, descr = [], []
+    for _ in range(ctx.n(250, 3000)):
+        xfh = hostval() if rng.random() < 0.35 else None
+        hh = hostval() if rng.random() < 0.75 else None
+        xfp = rng.choice([None, None, '', 'http', 'https', 'HTTPS', 'ftp', ' https', '"><c18m>'])
+        scheme = rng.choice(['http', 'https'])
+        sname = rng.choice(['localhost', '127.0.0.1', '::1', 'srv.example'])
+        sport = rng.choice(['80', '443', '8080', '', '080'])
+        env = {'wsgi.url_scheme': scheme, 'SERVER_NAME': sname, 'SERVER_PORT': sport}
+        if xfh is not None:
+            env['HTTP_X_FORWARDED_HOST'] = xfh
+        if hh is not None:
+            env['HTTP_HOST'] = hh
+        if xfp is not None:
+            env['HTTP_X_FORWARDED_PROTO'] = xfp
+        rep = {'environ': dict(env)}
+        try:
+            req = Request(dict(env))
+            h, sc, hu = req.host, req.url_scheme, req.host_url
+            if not (isinstance(h, str) and isinstance(sc, str) and isinstance(hu, str)):
+                raise TypeError('not a str')
+        except Exception as e:  # noqa
+            ctx.fail('host,raised', 'Request.host / host_url raised %s: %s for %r' % (type(e).__name__, e, env), rep)
+            h = sc = hu = None
+        ctx.case(('host', xfh, hh, xfp, scheme, sname, sport), hh is not None and ':' in hh or xfh is not None,
+                 {'part': 'host', 'environ': env, 'host': h} if hh and hh.count(':') > 1 else None)
+        ctx.count('host:colons=%s' % (min((hh or '').count(':'), 3) if xfh is None else 'x-forwarded-host'))
+        terms.append('(%s, %s, %s, %s, %s, %s, %s, %s, %s)' % (olit(xfh, slist), olit(hh, slist), olit(xfp, slist), slist(scheme), slist(sname),
+                                                          slist(sport), olit(h, slist), olit(sc, slist), olit(hu, slist)))
+        descr.append(dict(rep, implementation={'host': h, 'url_scheme': sc, 'host_url': hu}))
+    ctx.corr_check(
+        'host', 'Escape',
+        'option (list Z) * option (list Z) * option (list Z) * list Z * list Z * list Z * option (list Z) * option (list Z) * option (list Z)',
+        terms,
+        "fun c => let '(xfh, hh, xfp, sch, sn, sp, oh, osc, ohu) := c in "
+        "let e := {| x_fwd_host := xfh; http_host := hh; x_fwd_proto := xfp; wsgi_scheme := sch; server_name := sn; server_port := sp |} in "
+        "opt_eqb str_eqb (host e) oh && opt_eqb str_eqb (host_url e) ohu && "
+        "match osc with Some x => str_eqb (url_scheme e) x | None => true end",
+        lambda i: descr[i])
 
 
 def part_app(ctx, skeletons):
@@ -1128,6 +1199,24 @@ def part_app(ctx, skeletons):
         stream.append(('rawpath.' + (rawp.split('/')[1][:8] or 'root'), RawPath(rawp), [], {}, None, 'non-UTF-8 path bytes', 'ok'))
         stream.append(('rawpath.' + (rawp.split('/')[1][:8] or 'root'), RawPath(rawp), [('service', 'WMS'), ('request', 'GetCapabilities')], {}, None,
                        'non-UTF-8 path bytes', 'ok'))
+    # every form of Host header for every service
+    for i, (name, path, pairs) in enumerate(bases):
+        for j in range(len(HOST_FORMS) if not ctx.quick else 3):
+            hv = HOST_FORMS[(i * 3 + j) % len(HOST_FORMS)]
+            stream.append((name, path, pairs, {'HTTP_HOST': hv}, None, 'host form', 'ok'))
+    # every parameter that names a format / media type, with parameter tails, case changes and line ends appended to the VALID value
+    for name, path, pairs in bases:
+        for i, (key, val) in enumerate(pairs):
+            if key.lower() not in ('format', 'info_format', 'infoformat', 'exceptions', 'type') and ctx.quick:
+                continue
+            for tail in FORMAT_TAILS:
+                q2 = list(pairs)
+                q2[i] = (key, val + tail)
+                stream.append((name, path, q2, {}, None, 'tail on %s' % key, 'ok'))
+            if val.upper() != val:
+                q2 = list(pairs)
+                q2[i] = (key, val.upper())
+                stream.append((name, path, q2, {}, None, 'upper case %s' % key, 'ok'))
     # demo pages: every parameter of every page with hostile values (with and without `/`, quotes, script end tags)
     demo_hostile = ['"><c18m x="', "'><c18m x='", '</script><c18m>', 'image/png"><c18m x="', "image/png'><c18m x='",
                     'image/</script><c18m>', 'a/b<c18m>', 'EPSG:4326"><c18m x="', 'EPSG:900913</script><c18m>', '<c18m>',
@@ -1233,4 +1322,5 @@ def run(ctx):
         codes, locs, _n = sites
         skeletons = part_handlers(ctx, table, codes, locs)
     part_other_handlers(ctx)
+    part_host(ctx)
     part_app(ctx, skeletons)
